@@ -780,6 +780,16 @@ class Node:
                         f"Node.data already exists in parent: {new_parent}"
                     )
 
+        if isinstance(before, Node):
+            # Validate before we detach, so a refused call does not corrupt the tree
+            if before._parent is not new_parent:
+                raise ValueError(
+                    f"`before=node` ({before._parent}) "
+                    f"must be a child of target node ({new_parent})"
+                )
+            if before is self:
+                return  # already in place
+
         del self._parent._children[_index_of(self._parent._children, self)]
         if not self._parent._children:  # store None instead of `[]`
             self._parent._children = None
